@@ -4,6 +4,7 @@ package server
 
 import (
 	"context"
+	"crypto/tls"
 	"io"
 	"net"
 	"time"
@@ -416,8 +417,14 @@ func verifWorkerRelease(pxy proxy.Proxy) bool {
 //verif:props C11
 func verif_GetWorkConn(ctl *Control) {
 	verif.ResetEvents()
+	wait := time.Duration(ctl.serverCfg.UserConnTimeout) * time.Second
 	wc, err := ctl.GetWorkConn()
 	const evSend = "msg.Dispatcher).Send"
+	// the wait for a requested connection is bounded by the configured
+	// user-connection timeout (the user's connection is held meanwhile)
+	if verif.Called("time.After") {
+		verif.Ensures(verif.CallCount("time.After") == 1 && verif.CalledWith("time.After", 0, wait), "wait_bounded_by_the_user_connection_timeout")
+	}
 	if err == nil {
 		verif.Ensures(verif.Called("recv"), "connection_comes_from_the_pool")
 		verif.Ensures(verif.CallCount(evSend) >= 1 && verif.CallCount(evSend) <= 2, "taken_connection_is_replaced")
@@ -698,4 +705,44 @@ func verifStartSendsOneRequest(ctl *Control) bool {
 func verif_Control_Start_requester() {
 	verif.ResetEvents()
 	verif.CallTarget()
+}
+
+// NewService, the QUIC listener (C05 "when the server ... is given a trusted CA,
+// a peer without ... a client certificate chaining to that CA cannot get any
+// protocol message interpreted", whatever the transport): the TLS configuration
+// the QUIC listener is given is a Clone of the server's TLS configuration -
+// which carries the client-certificate requirement and the trusted pool (see
+// NewServerTLSConfig) - with only the ALPN list set on the copy.
+//
+//verif:contract ~/server.NewService
+//verif:props C05
+//verif:kinds post
+//verif:prune
+func verif_server_NewService_quic_tls(cfg *v1.ServerConfig) {
+	verif.Requires(cfg.QUICBindPort > 0 && cfg.WebServer.Port <= 0 && cfg.TCPMuxHTTPConnectPort <= 0 && cfg.KCPBindPort <= 0 && cfg.SSHTunnelGateway.BindPort <= 0 && len(cfg.HTTPPlugins) == 0 && cfg.VhostHTTPPort <= 0 && cfg.VhostHTTPSPort <= 0, "only_the_quic_listener_is_configured")
+	verif.ResetEvents()
+	_, _ = NewService(cfg)
+	const evQuic, evClone, evTLS = "quic-go.ListenAddr", "tls.Config).Clone", "transport.NewServerTLSConfig"
+	if verif.Called(evQuic) {
+		verif.Ensures(verif.CallCount(evClone) == 1 && verif.NthArg[*tls.Config](evClone, 0, 0) == verif.Ret[*tls.Config](evTLS, 0) && verif.NthArg[*tls.Config](evQuic, 0, 1) == verif.Ret[*tls.Config](evClone, 0), "quic_listener_gets_a_clone_of_the_servers_tls_configuration")
+	}
+}
+
+// HandleListener, the accept loop of a listener (C16 / C17 "a peer that sends an
+// unexpected or malformed first message is disconnected without affecting other
+// sessions"): the loop ends only when the listener itself fails - never because
+// of what one peer did (a failed TLS sniff closes that connection and the loop
+// goes on).
+//
+//verif:loopexit (*~/server.Service).HandleListener 1 check=verifAcceptLoopEndsOnlyWithTheListener args=l
+func verifAcceptLoopEndsOnlyWithTheListener(l net.Listener) bool {
+	return verif.CalledWithInIter("net.Listener).Accept", 0, l) && verif.IterRet[error]("net.Listener).Accept", 1) != nil && !verif.CalledInIter("CheckAndEnableTLSServerConnWithTimeout")
+}
+
+//verif:contract (*~/server.Service).HandleListener
+//verif:props C16 C17
+//verif:kinds loop,post
+func verif_Service_HandleListener(svr *Service, l net.Listener, internal bool) {
+	verif.ResetEvents()
+	svr.HandleListener(l, internal)
 }
